@@ -1,8 +1,9 @@
 (** C07 - integer text and byte encodings round-trip and match the reference digits.
     ONLY statements pinned here; proofs live in Dashu.Int.Io*. *)
 From Dashu Require Import Base.Prelude Base.Words Int.IoSpec Int.IoModel Int.IoDigits Int.IoPrint Int.IoParse
-  Int.IoRadix Int.IoLayout Int.IoBytes Int.IoRound Int.IoPow2 Int.IoTop Int.IoChunks Int.IoBytesAsIs Int.IoWords Int.IoTablesProof Int.IoSwar Int.IoPowers Int.IoBytesBEModel Int.IoBytesBE Int.IoDword.
-From DashuGen Require Import Params IoTables.
+  Int.IoRadix Int.IoLayout Int.IoBytes Int.IoRound Int.IoPow2 Int.IoTop Int.IoChunks Int.IoBytesAsIs Int.IoWords Int.IoTablesProof Int.IoSwar Int.IoPowers Int.IoBytesBEModel Int.IoBytesBE Int.IoDword
+  Int.IoDebugModel Int.IoDebug Int.IoFmt3Model Int.IoFmt3 Int.IoBigModel Int.IoBig Int.IoWriter Int.GrlSpec.
+From DashuGen Require Import Params IoTables IoTables3.
 Open Scope Z_scope.
 
 (** the specification digits are a positional representation of the value ... *)
@@ -328,3 +329,116 @@ Theorem C07_dword_words : forall w, 0 < w -> forall r x, w mod 2 = 0 -> 2 <= r -
   Words.B w <= x < Words.B w * Words.B w -> prepared_dword_words w r x = Ok (prepared_dword w r x).
 Proof. exact prepared_dword_words_correct. Qed.
 Print Assumptions C07_dword_words.
+
+(** ---- round 3 ---- *)
+
+(** Debug (`{:?}`, `{:#?}`, `{:+?}`): fmt/mod.rs DoubleEnd + fmt/non_power_two.rs DoubleEnd::fmt_non_power_two, with the literals and
+    the radix regenerated from the source.  Every integer whose bit length fits a word, every even word size >= 8, ANY logarithm
+    routine meeting the contract of log_word_base: the text is the sign, all decimal digits below a double word, otherwise the
+    digits_per_word(10) leading digits, "..", and as many trailing digits; `#` appends the true digit count and bit length.
+    Inside: 10^exp is divisible by range_per_word/10, the divisor has more than one word, the shifted number has exactly one
+    word more than the normalised divisor (one Knuth step gives the whole quotient), div_rem_highest_word's assertions hold *)
+Theorem C07_debug : forall w ilog plus alt v, 8 <= w -> w mod 2 = 0 ->
+  (forall m, Bw w * Bw w <= m -> 0 <= ilog m /\ 10 ^ ilog m <= m < 10 ^ (ilog m + 1)) ->
+  blen (Z.abs v) < Bw w ->
+  debug_asis w gen_dbg_lits ilog plus alt v = Ok (debug_spec (fst (radix_info w 10)) (Bw w * Bw w) plus alt v).
+Proof. exact debug_asis_correct. Qed.
+Print Assumptions C07_debug.
+
+(** the hypothesis on the logarithm is C12's certificate for log_word_base (C12_log_word_base_asis_correct) *)
+Theorem C07_debug_c12 : forall w ilog plus alt v, 8 <= w -> w mod 2 = 0 ->
+  (forall m, Bw w * Bw w <= m -> ilog_cert m 10 (ilog m) = true) ->
+  blen (Z.abs v) < Bw w ->
+  debug_asis w gen_dbg_lits ilog plus alt v = Ok (debug_spec (fst (radix_info w 10)) (Bw w * Bw w) plus alt v).
+Proof. exact debug_asis_c12. Qed.
+Print Assumptions C07_debug_c12.
+
+(** ... and it is satisfiable: the instance the oracle runs *)
+Theorem C07_debug_exact_log : forall w plus alt v, 8 <= w -> w mod 2 = 0 -> blen (Z.abs v) < Bw w ->
+  debug_asis w gen_dbg_lits (ilog_exact 10) plus alt v = Ok (debug_spec (fst (radix_info w 10)) (Bw w * Bw w) plus alt v).
+Proof. exact debug_asis_exact. Qed.
+Print Assumptions C07_debug_exact_log.
+
+(** what the specification's head and tail are: the digits of n / r^(count - k) and of n mod r^k, the head has exactly k digits *)
+Theorem C07_debug_head_tail : forall r, 2 <= r -> forall e (k : nat) n, (0 < k)%nat -> Z.of_nat k <= e -> r ^ e <= n < r ^ (e + 1) ->
+  let ds := digits_spec r n in
+  firstn k ds = digits_spec r (n / r ^ (e + 1 - Z.of_nat k)) /\
+  skipn (length ds - k) ds = digits_pad k r (n mod r ^ Z.of_nat k) /\
+  r ^ (Z.of_nat k - 1) <= n / r ^ (e + 1 - Z.of_nat k) < r ^ Z.of_nat k.
+Proof. exact digits_head_tail. Qed.
+Print Assumptions C07_debug_head_tail.
+
+(** fmt/mod.rs through the REGENERATED trait table (impl Display/Binary/Octal/LowerHex/UpperHex for UBig and for IBig: radix,
+    prefix, DigitCase), the regenerated digit-case rule of `impl Display for InRadix` and the DigitCase offsets: the text of the
+    specification for both types, every flag combination, in_radix with lower and (under `#`) upper case letters *)
+Theorem C07_fmt_tables : forall w y f v, 0 < w -> w mod 2 = 0 -> 36 < Bw w -> y = 0 \/ y = 1 ->
+  forall k, fmt_tables_asis w y k f v = fmt_spec k f v.
+Proof. exact fmt_tables_asis_correct. Qed.
+Print Assumptions C07_fmt_tables.
+
+Theorem C07_trait_table : forall k t y, trait_id k = Some t -> y = 0 \/ y = 1 ->
+  exists p c, trait_lookup t y gen_fmt_traits = Some (kind_radix k, p, c) /\ p = kind_prefix k /\
+    forall f d, d < kind_radix k -> case_char c d = digit_char (kind_upper k f) d.
+Proof. exact trait_table_ok. Qed.
+Print Assumptions C07_trait_table.
+
+(** NoLetters is chosen only where no digit reaches 10; otherwise `#` selects upper case *)
+Theorem C07_inradix_case : forall r f d, d < r -> case_char (inradix_case r (f_alt f)) d = digit_char (kind_upper (KInRadix r) f) d.
+Proof. exact inradix_case_ok. Qed.
+Print Assumptions C07_inradix_case.
+
+Theorem C07_layout_literals : gen_sign_minus = [45] /\ gen_sign_plus = [43] /\ gen_zero_pad = 48 /\ gen_separator = 95.
+Proof. exact layout_literals_ok. Qed.
+Print Assumptions C07_layout_literals.
+
+(** num-traits `Num::from_str_radix` (2 impls) = `Self::from_str_radix`; serde human readable forms (2 types) = Display /
+    from_str_with_radix_prefix with the radix dropped: these string forms are the functions of C07_from_str_radix, C07_fmt,
+    C07_from_str_prefix (the run exercises the serde forms through serde_json) *)
+Theorem C07_third_party_routes : gen_num_traits_routes = 2 /\ gen_serde_routes = 2.
+Proof. exact third_party_routes. Qed.
+Print Assumptions C07_third_party_routes.
+
+(** the big operations of the divide-and-conquer converters ARE the as-is models of C01 (pow, sqr, mul: schoolbook / Karatsuba /
+    Toom-3 behind the thresholds of the source) and C02 (div_rem: whole dispatch, num-modular primitives transcribed): exact *)
+Theorem C07_big_operations : forall w, 8 <= w ->
+  (forall a b, 0 <= a -> 0 <= b -> big_mul w a b = Ok (a * b)) /\
+  (forall a, 0 <= a -> big_sqr w a = Ok (a * a)) /\
+  (forall a e, 0 <= a -> 0 <= e -> big_pow w a e = Ok (a ^ e)) /\
+  (forall a b, 0 <= a -> 0 < b -> big_divrem w a b = Ok (a / b, a mod b)).
+Proof. intros w Hw. repeat split; intros; [apply big_mul_ok | apply big_sqr_ok | apply big_pow_ok | apply big_divrem_ok]; assumption. Qed.
+Print Assumptions C07_big_operations.
+
+(** the whole non-power-of-two printer below the value level: one word (PreMulInv division by its contract), double word
+    (IoDword), medium (fast_div_by_word_in_place groups, [Word; CHUNK_LEN] bounds), large (C01 pow / sqr, C02 div_rem cascade,
+    write_big_chunk recursion, write_chunk with its assert_eq!) - the specification digits, no panic, for every magnitude *)
+Theorem C07_print_words : forall w r x, 8 <= w -> w mod 2 = 0 -> 2 <= r -> 2 * r * r <= Words.B w -> 0 <= x ->
+  digits_np2_words w r x = Ok (digits_spec r x).
+Proof. exact digits_np2_words_total. Qed.
+Print Assumptions C07_print_words.
+
+(** the non-power-of-two parser below the value level: word Horner, mul_word_in_place_with_carry chunks, divide-and-conquer with
+    C01's pow and mul - the value-level model (hence, C07_parse_body, the specification) for every text *)
+Theorem C07_parse_words : forall w r s, 8 <= w -> w mod 2 = 0 -> 2 <= r -> r < Bw w -> parse_np2_words w r s = parse_np2 w r s.
+Proof. exact parse_np2_words_total. Qed.
+Print Assumptions C07_parse_words.
+
+Theorem C07_fmt_words : forall w k f v, 8 <= w -> w mod 2 = 0 -> 2 * 36 * 36 <= Words.B w -> fmt_words_asis w k f v = fmt_spec k f v.
+Proof. exact fmt_words_asis_correct. Qed.
+Print Assumptions C07_fmt_words.
+
+Theorem C07_body_words : forall w r s, 8 <= w -> w mod 2 = 0 -> 2 <= r -> r < Bw w -> body_words_asis w r s = body_spec r s.
+Proof. exact body_words_asis_correct. Qed.
+Print Assumptions C07_body_words.
+
+(** fmt/digit_writer.rs DigitWriter (buffer of round_up(BUFFER_LEN_MIN, chunk) digits, write = copy what fits / flush when full,
+    flush = zero-fill, SWAR chunk by chunk, emit buffer_len bytes): for every chunk length and EVERY partition of the digits
+    into write calls the characters are the byte-wise map of the digits *)
+Theorem C07_digit_writer : forall n (upper : bool) writes, (0 < n)%nat -> Forall (fun d => 0 <= d < 36) (concat writes) ->
+  dw_run n (if upper then gen_case_upper else gen_case_lower) writes = map (digit_char upper) (concat writes).
+Proof. exact digit_writer_text. Qed.
+Print Assumptions C07_digit_writer.
+
+Theorem C07_digit_writer_no_letters : forall n writes, (0 < n)%nat -> Forall (fun d => 0 <= d < 10) (concat writes) ->
+  dw_run n 0 writes = map (digit_char false) (concat writes).
+Proof. exact digit_writer_text_no_letters. Qed.
+Print Assumptions C07_digit_writer_no_letters.
